@@ -158,10 +158,15 @@ def parse_case_output(lines):
     return r
 
 
-def run_batch(ctx, exe, cases):
+def run_batch(ctx, exe, cases, timeout=900):
     """cases: list of (id, input text) → {id: parsed output}"""
     text = "db %s\n" % DB + "".join("case %s %s\n" % (i, t.encode().hex()) for i, t in cases)
-    r = ctx.run_harness(exe, text, timeout=1800)
+    import subprocess
+    try:
+        r = ctx.run_harness(exe, text, timeout=timeout)
+    except subprocess.TimeoutExpired:
+        # a run that does not finish in time is outside "completes without error": counted, not judged
+        return {str(i): {"timeout": True} for i, _ in cases}
     out = {}
     cur = []
     for l in r.stdout.splitlines():
@@ -178,11 +183,11 @@ def run_batch(ctx, exe, cases):
     return out
 
 
-def run_parallel(ctx, exe, cases, chunk=4):
+def run_parallel(ctx, exe, cases, chunk=4, timeout=900):
     chunks = [cases[i:i + chunk] for i in range(0, len(cases), chunk)]
     out = {}
     with concurrent.futures.ThreadPoolExecutor(max_workers=16) as ex:
-        for res in ex.map(lambda c: run_batch(ctx, exe, c), chunks):
+        for res in ex.map(lambda c: run_batch(ctx, exe, c, timeout), chunks):
             out.update(res)
     return out
 
@@ -728,6 +733,11 @@ def check_cases(ctx, exe, cases, hist, stop_on_first=True):
     skipped = {}
     for i, (c, p) in enumerate(cases):
         res = results[str(i)]
+        if res.get("timeout"):
+            hist["runs_timed_out"] += 1
+            if len(ctx.notes) < 3:
+                ctx.notes.append({"timed_out_case": {k: c[k] for k in c if k != "sols"}})
+            continue
         if res.get("crash"):
             skipped[i] = ("crash", res)
             continue
@@ -949,11 +959,16 @@ def check_variants(ctx, exe, cases, hist):
     """multicomponent diffusion / implicit / stagnant zones / reactive solids: no model, the property's oracles on
     the real outputs only"""
     inputs = [(str(i), gt.render(c)) for i, c in enumerate(cases)]
-    results = run_parallel(ctx, exe, inputs, chunk=2)
+    results = run_parallel(ctx, exe, inputs, chunk=1, timeout=300)
     problems = []
     judged = []
     for i, c in enumerate(cases):
         res = results[str(i)]
+        if res.get("timeout"):
+            hist["variant_runs_timed_out"] += 1
+            if len(ctx.notes) < 3:
+                ctx.notes.append({"timed_out_variant": {k: c[k] for k in c if k != "sols"}})
+            continue
         if res.get("crash"):
             problems.append((c, [("crash", str(res)[:300])], None))
             continue
